@@ -9,13 +9,13 @@ CONSTANTS
   NewTimeouts = {0, 2}
   NewNames = {""}
   DefNames = {}
-  WaitTimeouts = {1000000, 0, 2}
+  WaitTimeouts = {1000000, 2}
   Dto = 3
   Waiters = {"w1", "w2"}
   Depth = 6
-  MaxTicks = 3
+  MaxTicks = 2
   MaxClears = 1
-  MaxWaits = 3
+  MaxWaits = 2
   MaxSetNames = 0
 INVARIANT Emit
 INVARIANT GenInv
